@@ -21,8 +21,24 @@ enum Attempt {
 }
 
 fn attempt(bytes: &[u8], idx: usize, pw: Option<&[u8]>, bufsize: usize) -> Attempt {
+    attempt_io(bytes, idx, pw, bufsize, 0)
+}
+
+/// `chunk` > 0: the underlying stream hands out at most that many bytes per read call
+fn attempt_io(bytes: &[u8], idx: usize, pw: Option<&[u8]>, bufsize: usize, chunk: usize) -> Attempt {
+    if chunk > 0 {
+        let p = crate::sio::inst::plan();
+        p.borrow_mut().record_kinds = false;
+        p.borrow_mut().chunk = Some(chunk);
+        attempt_on(crate::sio::inst::Inst::new(bytes.to_vec(), p), idx, pw, bufsize)
+    } else {
+        attempt_on(Cursor::new(bytes), idx, pw, bufsize)
+    }
+}
+
+fn attempt_on<R: Read + std::io::Seek>(reader: R, idx: usize, pw: Option<&[u8]>, bufsize: usize) -> Attempt {
     let r = guard(|| {
-        let mut ar = match zip::ZipArchive::new(Cursor::new(bytes)) {
+        let mut ar = match zip::ZipArchive::new(reader) {
             Ok(a) => a,
             Err(e) => return Attempt::OpenErr(format!("archive: {e}")),
         };
@@ -121,6 +137,20 @@ fn check_cfg(c: &Cfg, seed: u64, flips: bool, st: &mut Stats, order: u64) {
             ),
         }
     }
+    // right password over an underlying stream that returns short reads
+    for &(b, ch) in &[(0usize, 1usize), (16, 1), (4096, 3), (0, 7), (17, 5), (1, 4095)] {
+        st.evals += 1;
+        match attempt_io(&bytes, 1, Some(&c.pw), b, ch) {
+            Attempt::Clean(x) if x == content => st.class("right-password:content(short underlying reads)"),
+            Attempt::Panic(p) => st.viol(format!("panic/{}", panic_site(&p)), format!("{what}: {p}"), case(json!({"buf": b, "chunk": ch})), order),
+            other => st.viol(
+                format!("right-password-fails/short-underlying-reads/AE-{}/m{}", c.version, c.method),
+                format!("{what}: correct password, caller buffer {b}, underlying reads of at most {ch} bytes: {}", match &other { Attempt::Clean(x) => format!("{} bytes that differ from the original {}", x.len(), content.len()), o => format!("{o:?}") }),
+                case(json!({"buf": b, "chunk": ch})),
+                order,
+            ),
+        }
+    }
     // no password
     st.evals += 1;
     match attempt(&bytes, 1, None, 0) {
@@ -194,6 +224,52 @@ fn check_cfg(c: &Cfg, seed: u64, flips: bool, st: &mut Stats, order: u64) {
             }
         }
     }
+    // two simultaneous changes (bound 2) on one small stored entry per (version, strength): every pair of bits of the
+    // authentication code, and one ciphertext bit together with every value of every authentication-code byte
+    if flips && c.len == 17 && c.method == 0 && c.pw.len() <= 4 {
+        let mut b = bytes.clone();
+        let mac0 = d0 + dn - 10;
+        let mut pair = |b: &[u8], what2: String, extra: Value, st: &mut Stats| {
+            st.evals += 1;
+            match attempt(b, 1, Some(&c.pw), 0) {
+                Attempt::InvalidPassword | Attempt::OpenErr(_) => st.class("two-changes:rejected-at-open"),
+                Attempt::ReadErr(_) => st.class("two-changes:read-error"),
+                Attempt::Panic(p) => st.viol(format!("panic/{}", panic_site(&p)), format!("{what}: {what2}: {p}"), case(extra), order),
+                Attempt::PasswordRequired => st.viol("flip/password-required", format!("{what}: unexpected password-required"), case(extra), order),
+                Attempt::Clean(x) => {
+                    st.class("TAMPERED-READ-COMPLETED");
+                    st.viol(
+                        format!("tampering-undetected/two-changes/AE-{}", c.version),
+                        format!("{what}: {what2}, correct password: the read completed with {} bytes ({})", x.len(), if x == content { "equal to the original" } else { "different from the original" }),
+                        case(extra),
+                        order,
+                    );
+                }
+            }
+        };
+        for i in 0..80usize {
+            for j in i + 1..80 {
+                b[mac0 + i / 8] ^= 1 << (i % 8);
+                b[mac0 + j / 8] ^= 1 << (j % 8);
+                pair(&b, format!("bits {i} and {j} of the authentication code flipped"), json!({"mac_bits": [i, j]}), st);
+                b[mac0 + i / 8] ^= 1 << (i % 8);
+                b[mac0 + j / 8] ^= 1 << (j % 8);
+            }
+        }
+        let ct0 = d0 + salt_len_of(c.strength) + 2;
+        b[ct0] ^= 1;
+        for k in 0..10usize {
+            let orig = b[mac0 + k];
+            for v in 0..=255u8 {
+                if v == orig {
+                    continue;
+                }
+                b[mac0 + k] = v;
+                pair(&b, format!("ciphertext bit 0 flipped and authentication-code byte {k} set to {v:#04x}"), json!({"ct_bit0_and_mac_byte": [k, v]}), st);
+            }
+            b[mac0 + k] = orig;
+        }
+    }
     // independent decryption sanity (the builder's own output must be decryptable by the reference, otherwise the seed is wrong)
     if let Ok(p) = zipparse::parse(&bytes, &Opts::lenient()) {
         let raw = zipparse::raw_data(&bytes, &p.entries[1]).unwrap_or_default();
@@ -201,6 +277,10 @@ fn check_cfg(c: &Cfg, seed: u64, flips: bool, st: &mut Stats, order: u64) {
             st.viol("machinery/reference-encryptor", format!("{what}: the reference cannot decrypt its own output"), case(json!("selftest")), order);
         }
     }
+}
+
+fn salt_len_of(strength: u8) -> usize {
+    crate::reference::winzipaes::salt_len(strength)
 }
 
 fn replay(case: &Value, st: &mut Stats, seed: u64) {
@@ -232,7 +312,7 @@ pub fn run(args: &Args) -> i32 {
     ctx.rule = format!(
         "E-PROD: {{AE-1, AE-2}} x {{128,192,256}} x inner method {{stored, deflate, bzip2, zstd}} x password {{'p', 64 bytes, non-UTF-8}} x plaintext length {{0,1,15,16,17,32,33,100,70001}} = {} entries encrypted by an independent implementation \
          (PBKDF2-HMAC-SHA1, AES-CTR little-endian counter, HMAC-SHA1-80). For each: correct password under 5 caller buffer sizes returns the plaintext; no password -> password-required; 3 wrong passwords rejected or failing on read; wrong CRC field: read error for AE-1, ignored for AE-2. \
-         For every entry with 1..=33 plaintext bytes{}: EVERY single-bit flip of salt, verifier, ciphertext and authentication code, read with 2 caller buffer sizes, must fail at open or on read no later than EOF. distinct_nontrivial = distinct archives (hash set) + bit flips (counted).",
+         For every entry with 1..=33 plaintext bytes{}: EVERY single-bit flip of salt, verifier, ciphertext and authentication code, read with 2 caller buffer sizes, must fail at open or on read no later than EOF; the right password is also tried over underlying streams that return 1/3/5/7/4095-byte short reads; on one stored 17-byte entry per (version, strength): every PAIR of authentication-code bits and (one ciphertext bit x every value of every authentication-code byte). distinct_nontrivial = distinct archives (hash set) + bit flips (counted).",
         cfgs.len(),
         if thorough { "" } else { " (quick: the two short passwords)" }
     );
